@@ -12,7 +12,7 @@ EXPLANATION = (
     "goes through apply_reverse, which reverses iff the flag; the recursion forwards attr/reverse unchanged. R16.4 "
     "sort_by_attr calls no Vec/slice mutator other than the two sorts. R16.5 kind(): Leaf<Parent; EntryLocation derives "
     "Ord over (file, line, col) in that order. Decides the wiring of the comparators, not the string arithmetic."
-    " R16.6 argument ordering anchors. R16.7 path summaries of the Name arm of cmp_bench_arg_names follow the staging the value order needs. R16.5 also: the location of a node without its own position is computed from location() of each child, recursively (earliest-descendant).")
+    " R16.6 argument ordering anchors. R16.7 path summaries of the Name arm of cmp_bench_arg_names follow the staging the value order needs. R16.5 also: the location of a node without its own position is computed from location() of each child, recursively (earliest-descendant). R16.8 digit runs compare by numeric value only: on the path where both tokens are digit runs Token::cmp returns exactly cmp_int(self.text, other.text) - no further tie-break inside the token - and the plain string comparison otherwise.")
 NOT_DECIDED = ["totality/transitivity of the mixed integer/float/natural argument comparator on heterogeneous lists",
                "digit-run arithmetic in cmp_int and tokenisation", "panic-freedom of sort_by under an inconsistent order"]
 
